@@ -23,6 +23,11 @@
 //!        <hdr_number> <hdr_compact> <uncles> <dur_ms>
 //!                                           -> fail | <number> <base> <rem> <hr hex> <start> <len> <compact>
 //!                                              Consensus::next_epoch_ext through a mock EpochProvider
+//!   nextperm <T> <initial> <halving> <number> <base> <rem> <prevHR> <start> <len> <hdr_number> <compact>
+//!                                           -> fail | <number> <base> <rem> <hr hex> <start> <len> <compact>
+//!                                              the same with Pow::Dummy + permanent_difficulty_in_dummy
+//!   genesis <reward> <compact> <len> <T> <on> <od> -> fail | <base> <rem> <hr hex> <len> <compact>
+//!                                              build_genesis_epoch_ext
 use crate::common::*;
 use ckb_chain_spec::consensus::{Consensus, ConsensusBuilder};
 use ckb_pow::{EaglesongPowEngine, PowEngine};
@@ -150,6 +155,8 @@ fn mk_epoch(start: u64, len: u64, base: u64, rem: u64) -> EpochExt {
 
 struct Ctx {
     consensus: Consensus,
+    /// Pow::Dummy + permanent_difficulty_in_dummy
+    perm: Consensus,
     min_len: u64,
     max_len: u64,
 }
@@ -375,6 +382,59 @@ fn do_next(out: &mut Out, ctx: &mut Ctx, i: &NextIn) {
             out.nontrivial(format!("{} {} {} {} {}", i.len, i.uncles, i.dur, e.length(), e.compact_target()));
         }
     }
+}
+
+fn do_nextperm(out: &mut Out, ctx: &mut Ctx, t: u64, initial: u64, halving: u64, number: u64, base: u64, rem: u64, prev_hr: &U256, start: u64, len: u64, hn: u64, compact: u32) {
+    ctx.perm.epoch_duration_target = t;
+    ctx.perm.initial_primary_epoch_reward = Capacity::shannons(initial);
+    ctx.perm.primary_epoch_reward_halving_interval = halving;
+    let epoch = EpochExt::new_builder()
+        .number(number)
+        .base_block_reward(Capacity::shannons(base))
+        .remainder_reward(Capacity::shannons(rem))
+        .previous_epoch_hash_rate(prev_hr.clone())
+        .start_number(start)
+        .length(len)
+        .compact_target(compact)
+        .build();
+    let header = HeaderBuilder::default().number(hn).epoch(EpochNumberWithFraction::new(1, 0, 1000)).compact_target(compact.max(1)).build();
+    let mock = Mock { epoch, uncles: 0, dur: 0 };
+    let c = &ctx.perm;
+    let res = quiet(|| c.next_epoch_ext(&header, &mock).map(|n| n.epoch()));
+    let line = format!("nextperm {t} {initial} {halving} {number} {base} {rem} {} {start} {len} {hn} {:#x}", hx(prev_hr), compact);
+    let ans = match &res {
+        Some(Some(e)) => {
+            // the dev-chain arm must still hand out exactly the scheduled reward
+            let got = e.base_block_reward().as_u64() as u128 * e.length() as u128 + e.remainder_reward().as_u64() as u128;
+            if halving > 0 {
+                let n1 = number as u128 + 1;
+                let want = if n1 % halving as u128 == 0 { let h = n1 / halving as u128; if h < 64 { Some((initial >> h) as u128) } else { None } } else { Some(base as u128 * len as u128 + rem as u128) };
+                if want != Some(got) || e.remainder_reward().as_u64() >= e.length() {
+                    out.oracle_fail("nextperm-epoch-reward", &line);
+                }
+            }
+            format!("{} {} {} {} {} {} {}", e.number(), e.base_block_reward().as_u64(), e.remainder_reward().as_u64(), hx(e.previous_epoch_hash_rate()), e.start_number(), e.length(), e.compact_target())
+        }
+        _ => "fail".to_string(),
+    };
+    out.op(&line, &ans);
+    out.count("nextperm");
+}
+
+fn do_genesis(out: &mut Out, r: u64, compact: u32, len: u64, t: u64, on: u32, od: u32) {
+    let res = quiet(|| ckb_chain_spec::consensus::build_genesis_epoch_ext(Capacity::shannons(r), compact, len, t, (on, od)));
+    let line = format!("genesis {r} {:#x} {len} {t} {on} {od}", compact);
+    let ans = match &res {
+        Some(e) => {
+            if e.base_block_reward().as_u64() as u128 * len as u128 + e.remainder_reward().as_u64() as u128 != r as u128 {
+                out.oracle_fail("genesis-epoch-reward", &line);
+            }
+            format!("{} {} {} {} {}", e.base_block_reward().as_u64(), e.remainder_reward().as_u64(), hx(e.previous_epoch_hash_rate()), e.length(), e.compact_target())
+        }
+        None => "fail".to_string(),
+    };
+    out.op(&line, &ans);
+    out.count("genesis");
 }
 
 fn gen_compact(rng: &mut Rng) -> u32 {
@@ -741,6 +801,8 @@ fn exec_line(out: &mut Out, ctx: &mut Ctx, line: &str) {
         }
         "sums" => epoch_sums(out, parse_u64(t[1]), parse_u64(t[2]), parse_u64(t[3]), parse_u64(t[4])),
         "next" => do_next(out, ctx, &NextIn::parse(&t)),
+        "nextperm" => do_nextperm(out, ctx, parse_u64(t[1]), parse_u64(t[2]), parse_u64(t[3]), parse_u64(t[4]), parse_u64(t[5]), parse_u64(t[6]), &parse_u256(t[7]), parse_u64(t[8]), parse_u64(t[9]), parse_u64(t[10]), parse_u64(t[11]) as u32),
+        "genesis" => do_genesis(out, parse_u64(t[1]), parse_u64(t[2]) as u32, parse_u64(t[3]), parse_u64(t[4]), parse_u64(t[5]) as u32, parse_u64(t[6]) as u32),
         other => panic!("unknown op {other}"),
     }
 }
@@ -773,7 +835,9 @@ pub fn run(opts: &Opts) {
         }
     }));
     let consensus = ConsensusBuilder::default().build();
-    let mut ctx = Ctx { min_len: consensus.min_epoch_length(), max_len: consensus.max_epoch_length(), consensus };
+    let perm = ConsensusBuilder::default().pow(ckb_pow::Pow::Dummy).permanent_difficulty_in_dummy(true).build();
+    assert!(perm.permanent_difficulty() && !consensus.permanent_difficulty());
+    let mut ctx = Ctx { min_len: consensus.min_epoch_length(), max_len: consensus.max_epoch_length(), consensus, perm };
     let mut out = Out::new(&opts.out);
     let rule = "next: accepted epoch transition from a previous length within the consensus bounds (fingerprint L,uncles,duration,L',compact'); sums: a whole epoch's block rewards added up; pow: an accepted header";
 
@@ -1089,6 +1153,14 @@ pub fn run(opts: &Opts) {
             do_next(&mut out, &mut ctx, &inp);
             i += 1;
         }
+    }
+    out.begin_case("nextperm-genesis");
+    for _ in 0..300 * k {
+        let inp = gen_next(&mut rng, &ctx);
+        do_nextperm(&mut out, &mut ctx, inp.t, inp.initial, inp.halving, inp.number, inp.base, inp.rem, &inp.prev_hr, inp.start, inp.len, inp.hdr_number, inp.hdr_compact);
+        let r = if rng.chance(1, 5) { rand_u64_biased(&mut rng) } else { MAINNET_INITIAL >> rng.below(5) };
+        let od = if rng.chance(1, 20) { 0 } else { inp.ort.1 };
+        do_genesis(&mut out, r, gen_compact(&mut rng), inp.len, inp.t, inp.ort.0, od);
     }
     // a chain of epochs: feed each output back in (realistic trajectories; the invariant
     // MIN <= L <= MAX is maintained by the implementation itself, which the oracle checks)
